@@ -1,8 +1,8 @@
 SPECIFICATION Spec
-CONSTANTS MaxOps = 1
-          MaxClock = 1
-          Small = FALSE
-          Tiny = FALSE
+CONSTANTS MaxOps = 2
+          MaxClock = 0
+          Small = TRUE
+          Tiny = TRUE
 INVARIANT FramesBound
 INVARIANT FrameCount
 INVARIANT BlockSizes
